@@ -195,6 +195,10 @@ Inert == {C("inert/sinkI/" \o InertInt[i][1] \o "/" \o w, InertCallees \o InertA
          \cup {C("inert/constI-print/" \o InertInt[i][1], InertCallees \o <<Print1(CallE("constI", <<InertInt[i][2]>>)), Def1("k", CallE("constI", <<InertInt[i][2]>>)), Print1(Var("k"))>>) : i \in 1..Len(InertInt)}
          \cup {C("inert/sinkS/" \o InertStr[i][1] \o "/" \o w, InertCallees \o InertAt(w, ExprS(CallE("sinkS", <<InertStr[i][2]>>)))) : i \in 1..Len(InertStr), w \in InertWhere}
          \cup {C("inert/sink2/" \o InertInt[i][1] \o "-" \o InertStr[j][1], InertCallees \o <<ExprS(CallE("sink2", <<InertInt[i][2], InertStr[j][2]>>)), L("after")>>) : i \in 1..Len(InertInt), j \in 1..Len(InertStr)}
-All == Inert \cup LoopCalls \cup LoopJumps \cup WorldOrder \cup MixedLogic \cup MixedArith \cup Exprs \cup Calls \cup Stores \cup World \cup Chains \cup Switches \cup Loops
+\* builtins with an effect as STATEMENTS of their own, with operands that have effects (round 12: "an expression that is not a call is not a statement" refused them)
+BStmt == {CK("bstmt/copy-call/" \o w, InertCallees \o <<Def1("dst", SliceLit("int", <<>>))>> \o InertAt(w, ExprS(CopyE("dst", CallE("mkS", <<N(2)>>)))) \o <<PrintS(<<LenE(Var("dst"))>>)>>, <<>>) : w \in {"stmt", "loop", "func"}}
+         \cup {[id |-> "C04/bstmt/input-call/" \o w, prog |-> [body |-> Prelude \o InertAt(w, ExprS(Input(PS(1, StrL("q? "))))) \o <<PrintS(<<StrL("total"), Var("cnt")>>)>>, world |-> [fs |-> <<>>, stdin |-> <<"l1", "l2", "l3", "l4">>]], check |-> <<>>] : w \in {"stmt", "loop"}}
+         \cup {[id |-> "C04/bstmt/read-call/" \o w, prog |-> [body |-> Prelude \o InertAt(w, ExprS(ReadE(PS(1, StrL("in.txt"))))) \o <<PrintS(<<StrL("total"), Var("cnt")>>)>>, world |-> [fs |-> <<[path |-> "in.txt", content |-> "data\n"]>>, stdin |-> <<>>]], check |-> <<>>] : w \in {"stmt", "loop"}}
+All == BStmt \cup Inert \cup LoopCalls \cup LoopJumps \cup WorldOrder \cup MixedLogic \cup MixedArith \cup Exprs \cup Calls \cup Stores \cup World \cup Chains \cup Switches \cup Loops
 ASSUME ndJsonSerialize("fam.ndjson", SetToSeq(All))
 =============================================================================
